@@ -517,6 +517,41 @@ def r13_cascade_lookup_numbering(idx, r):
                   msg=f"after `{norm(x)[:60]}` the new maximum assembly number is not stored: the counter stays behind the numbers just handed out, and the next fresh assembly collides with a pool assembly")
 
 
+def r14_one_number_per_assembly(idx, r):
+    """Core.normalizeNames and SpentFuelPool.normalizeNames walk their assemblies with a running number: within one iteration the assembly's
+    number, its name and the names of all its blocks are made from the SAME value - the counter advances exactly once, after its last use.
+    Advanced earlier, the blocks are named after the next assembly and collide with the next one charged."""
+    n = 0
+    for cls in (CORE, "armi.reactor.spentFuelPool.SpentFuelPool"):
+        f = idx.method(cls, "normalizeNames")
+        loops = [x for x in f.node.body if isinstance(x, ast.For)]
+        incs = [x for x in walk_local(f.node) if isinstance(x, ast.AugAssign) and isinstance(x.target, ast.Name)]
+        if not loops or not incs:
+            raise AnchorMissing(f"{cls}.normalizeNames: loop and counter")
+        ctr = incs[0].target.id
+        loop = loops[0]
+        fl = Flow(f.node, lambda nd: ["inc"] if isinstance(nd, ast.AugAssign) and isinstance(nd.target, ast.Name) and nd.target.id == ctr else [], body=loop.body).run()
+        cname = cls.rsplit(".", 1)[-1]
+        for x in walk_local(loop):
+            uses = isinstance(x, ast.Call) and any(isinstance(a, ast.Name) and a.id == ctr for a in x.args) or (isinstance(x, ast.Assign) and isinstance(x.value, ast.Name) and x.value.id == ctr)
+            if not uses:
+                continue
+            n += 1
+            st = fl.state_before(x) or {}
+            r.require(st.get("inc", (0, 0))[1] == 0, f"{cname}.normalizeNames:{norm(x)[:40]}:uses-the-number-of-this-assembly", f, node=x,
+                      msg=f"`{norm(x)[:70]}` can run after the counter was advanced: it takes the number of the NEXT assembly, so the blocks of one assembly carry the names of another")
+        ends = fl.iteration_ends()
+        r.require(bool(ends) and all(e.get("inc") == (1, 1) for e in ends), f"{cname}.normalizeNames:counter-advances-once-per-assembly", f, node=loop,
+                  msg="an iteration ends with the counter advanced zero or several times: numbers are reused or skipped")
+    if n < 6:
+        raise AnchorMissing("uses of the running number in the two normalizeNames")
+
+
+def r15_pairing(idx, r):
+    from ..pairing import pairing_rule
+    pairing_rule(idx, r, ["armi.physics.fuelCycle.fuelHandlers", "armi.reactor.cores", "armi.reactor.spentFuelPool", "armi.reactor.assemblies", "armi.reactor.reactors"], 80)
+
+
 def run(idx, chk):
     chk.explanation = (
         "C14: who may write childrenByLocator/assembliesByName/blocksByName; Core.add/removeAssembly touching every table exactly once on "
@@ -545,3 +580,7 @@ def run(idx, chk):
                  necessary="an assembly keeps its name through add/remove cycles")
     chk.run_rule("R14.13", "cascade guard tests the assembly swapped in; location table built per call; every renumbering stores the new maximum", lambda r: r13_cascade_lookup_numbering(idx, r), floor=4,
                  necessary="each lookup returns the object at that location; no two assemblies share a name")
+    chk.run_rule("R14.14", "assembly number, assembly name and block names of one iteration are made from one counter value; the counter advances once per assembly", lambda r: r14_one_number_per_assembly(idx, r), floor=8,
+                 necessary="every block is found under a name that no other block carries")
+    chk.run_rule("R14.15", "arguments stand at the parameter they are named after; sibling calls forward the same pass-through parameters", lambda r: r15_pairing(idx, r), floor=1,
+                 necessary="the two assemblies of a swap are not exchanged with their locations")
